@@ -65,6 +65,27 @@ Proof.
 Qed.
 Print Assumptions c01_incoherent_lib_refeed_witness.
 
+(* Witness 3: discovery mode (hold-until-LIB, as the hub uses), first streamable block 12, kept 2, all-blocks-trigger:
+   G = (1, num 10, parent 9, lib 10) declares its own height: LIB := (1, 10), New G, Irreversible G; then
+   B, A, X, C, X as in witness 1 *)
+Definition wl_cfg_disc : config := mkCfg 12 false true 2 true (mkFilter true true true true) None.
+Definition wl_hist_disc : list block := mkBlock 1 10 9 10 :: wl_hist.
+
+Example c01_wild_discovery_trace :
+  wl_show (fk_run wl_cfg_disc (fs_init LNone) wl_hist_disc) =
+    [ ([(SNew, 1); (SIrr, 1)], ROk); ([], ROk); ([(SNew, 2); (SIrr, 2)], ROk); ([], ROk);
+      ([(SNew, 3); (SNew, 4); (SIrr, 3)], ROk); ([(SUndo, 4); (SNew, 5)], ROk) ] /\
+  map (fun s => libref (db s)) (fk_states wl_cfg_disc (fs_init LNone) wl_hist_disc) =
+    [ mkR 1 10; mkR 1 10; mkR 2 14; mkR 2 14; mkR 3 12; mkR 3 12 ].
+Proof. vm_compute. split; reflexivity. Qed.
+
+Theorem c01_wild_discovery_refeed_witness : c01_wild_discovery_refeed_refuted.
+Proof.
+  exists wl_cfg_disc, wl_hist_disc. vm_compute.
+  repeat split; try reflexivity; repeat constructor.
+Qed.
+Print Assumptions c01_wild_discovery_refeed_witness.
+
 (* ================================================================ what holds for arbitrary declarations *)
 
 (* partial (two of the three clauses of c01_statement, for EVERY well-formed history and every configured LIB
